@@ -177,7 +177,20 @@ static void op_HsortInts(const jv *in, jout *out) {
     jo_raw(out, "]", 1);
     jo_int(out, "ncmp", cnt.ncmp);
 }
+/* secret-side operations on RAW key bytes, including invalid keys (0, >= n): "fails exactly in its documented cases (invalid key ...)
+ * and then returns no usable key" -- in particular a key zeroed by an earlier failure stays dead */
+static void op_SeckeyRaw(const jv *in, jout *out) {
+    unsigned char sk[32], t[32]; long op = jv_int(in, "op", 1); int ret = 0;
+    jv_need(in, "key", sk, 32); if (jv_bytes(in, "t", t, 32) != 32) memset(t, 0, 32);
+    if (op == 1) ret = secp256k1_ec_seckey_tweak_add(CTX, sk, t);
+    else if (op == 2) ret = secp256k1_ec_seckey_tweak_mul(CTX, sk, t);
+    else if (op == 3) ret = secp256k1_ec_seckey_negate(CTX, sk);
+    else { secp256k1_keypair kp; ret = secp256k1_keypair_create(CTX, &kp, sk) && secp256k1_keypair_xonly_tweak_add(CTX, &kp, t); }
+    jo_int(out, "ret", ret); jo_int(out, "skok", secp256k1_ec_seckey_verify(CTX, sk));
+    if (ret) jo_bytes(out, "sk", sk, 32);
+}
 #define VH_OPS_KEYS \
+    { "SeckeyRaw", op_SeckeyRaw }, \
     { "PubkeyCreate", op_PubkeyCreate }, { "KeyChain", op_KeyChain }, { "KeypairCreate", op_KeypairCreate }, \
     { "PubkeyCombine", op_PubkeyCombine }, { "PubkeyCmp", op_PubkeyCmp }, { "PubkeySort", op_PubkeySort }, \
     { "XonlyTweakCheck", op_XonlyTweakCheck }, { "HsortInts", op_HsortInts },
